@@ -7,7 +7,7 @@ from . import deleglib as D
 PROPERTY = "C11"
 DRIVER = "TraitsVerif/Driver/Deleg.lean"
 PROPS_MODULES = ["TraitsVerif.Props.C11"]
-TRANSLATORS = []
+TRANSLATORS = ["delegsrc"]
 DISTINCT_BY_OUTPUT = False
 RULE = ("real HasTraits classes for the four prefix styles (same name, explicit name, 'p_*', '*' with __prefix__) x "
         "DelegatesTo / PrototypedFrom, chains of length <= 3 (incl. DelegatesTo through PrototypedFrom and the "
@@ -26,7 +26,7 @@ RULE = ("real HasTraits classes for the four prefix styles (same name, explicit 
         "object of every forwarder are compared with the Lean model; corpus: the witness histories of the Lean "
         "refutations (F18-F20), the `del`-raises-after-deleting branches, chains of 99 / 100 / 101 levels (the "
         "100-step recursion limit); quick: 2000 histories for each of the 8 style x kind shapes + 500 for each of 8 "
-        "chain shapes, 5 subclass shapes and 3 comparison-mode shapes + 150 for each of 3 malformed shapes, thorough: 6250 / 3000 / 1000; a case is non-trivial when "
+        "chain shapes, 5 subclass shapes and 3 comparison-mode shapes + 150 for each of 3 malformed shapes and the one-character wildcard prefix 'p*', thorough: 6250 / 3000 / 1000; a case is non-trivial when "
         "some operation changed a value or the forwarder table, raised, or produced an event; distinct = distinct "
         "case line")
 TRUSTED = [
